@@ -2,6 +2,7 @@
 #include <klpt.h>
 #include "tools.h"
 #include <tools.h>
+#include <verif_sign_hooks.h>
 
 /** @file
  *
@@ -494,6 +495,10 @@ represent_integer(quat_alg_elem_t *gamma, ibz_t *n_gamma, const quat_alg_t *Bpoo
         found = found && (ibz_get(&coeffs[0]) % 2 == ibz_get(&coeffs[3]) % 2) &&
                 (ibz_get(&coeffs[1]) % 2 == ibz_get(&coeffs[2]) % 2);
     }
+#ifdef SQISIGN_SQISIGN2D_WEST_AC24_VERIF
+    if (verif_h2_fail("represent_integer"))
+        found = 0; /* H2 failure injection */
+#endif
     if (found) {
         // translate x,y,z,t into the quaternion element gamma
         order_elem_create(gamma, &STANDARD_EXTREMAL_ORDER, &coeffs, Bpoo);
@@ -639,6 +644,10 @@ represent_integer_non_diag(quat_alg_elem_t *gamma, ibz_t *n_gamma, const quat_al
                     ((ibz_get(&coeffs[1]) - ibz_get(&coeffs[2])) % 4 == 2);
         }
     }
+#ifdef SQISIGN_SQISIGN2D_WEST_AC24_VERIF
+    if (verif_h2_fail("represent_integer_non_diag"))
+        found = 0; /* H2 failure injection */
+#endif
     if (found) {
         // translate x,y,z,t into the quaternion element gamma
         order_elem_create(gamma, &STANDARD_EXTREMAL_ORDER, &coeffs, Bpoo);
